@@ -387,7 +387,7 @@ def obligations(tier):
             (2, True, None, 9, 16, 4),
             (3, True, None, 9, 18, 4),
             (3, True, 2, 9, 18, 4),
-            (4, True, 2, 9, 18, 4),
+            (4, True, 2, 8, 14, 3),
             (3, True, 1, 9, 18, 4),
             (2, True, 2, 9, 16, 4),
             (3, True, 3, 9, 18, 4),
